@@ -234,7 +234,7 @@ def c01(ctx):
     ctx.replay("C01-exhaustive", cases, FIELDS["C01"])
     # (2b) seeded random programs beyond the structured scope (any nesting up to 9 nodes)
     rc = random_cases(ctx.seed, 400 if quick else 4000, with_caps=False)
-    rexps, _ = vm_oracle(ctx, "random", rc, max_steps=300000, invariants=("MatchWF", "NoStuck", "StepBound"))
+    rexps, _, rc = vm_oracle(ctx, "random", rc, max_steps=20000, invariants=("MatchWF", "NoStuck", "StepBound"), drop_expensive=True)
     ctx.replay("C01-seeded-random", rc, FIELDS["C01"], exps=rexps)
     ctx.exhaustive = False
     # (3) the binding at step level: recorded engine runs are behaviours of VM.tla
@@ -270,7 +270,7 @@ def c02(ctx):
     mc_vm(ctx, "sens-SharedEnv", cap_texts([c for c in cases if c["id"] % 10 == 0], hi_cap=3), dev=["SharedEnv"], expect="RefinesSemantics")
     ctx.replay("C02-exhaustive", cases, FIELDS["C02"])
     rc = random_cases(ctx.seed + 7919, 400 if ctx.tier == "quick" else 4000, with_caps=True)
-    rexps, _ = vm_oracle(ctx, "random", rc, max_steps=300000, invariants=("MatchWF", "NoStuck", "StepBound"))
+    rexps, _, rc = vm_oracle(ctx, "random", rc, max_steps=20000, invariants=("MatchWF", "NoStuck", "StepBound"), drop_expensive=True)
     ctx.replay("C02-seeded-random", rc, FIELDS["C02"], exps=rexps)
     ctx.exhaustive = False
     # bindings scoped by named loops (per-iteration maps, abandoned iterations)
@@ -630,18 +630,32 @@ def c13(ctx):
 
 
 def vm_oracle(ctx, name, cases, max_steps=20000, workers=None, timeout=900,
-              invariants=("MatchWF", "LineColOK", "NoStuck", "StepBound", "TypeOK", "RefinesSemantics")):
+              invariants=("MatchWF", "LineColOK", "NoStuck", "StepBound", "TypeOK", "RefinesSemantics"), drop_expensive=False):
     """Run spec/VM.tla on the cases and use the machine as oracle: returns the
-    expectation documents (matches and instruction counts per text)."""
-    d = ctx.scratch.sub("vmo_" + name)
-    with open(os.path.join(d, "cases.ndjson"), "w") as f:
-        for c in cases:
-            f.write(json.dumps(c, separators=(",", ":")) + "\n")
-    cfg = ("SPECIFICATION Spec\nCONSTANT CaseFile = \"cases.ndjson\"\nCONSTANT MaxSteps = %d\nCONSTANT Dev = {}\n"
-           "INVARIANTS %s EmitDone\nCHECK_DEADLOCK FALSE\n" % (max_steps, " ".join(invariants)))
-    out, st = vlib.run_tlc(d, "VM", cfg, workers=workers or vlib.NCPU, timeout=timeout, heap="8g")
-    if not st["ok"]:
+    expectation documents (matches and instruction counts per text).  With
+    drop_expensive (seeded random programs only) a case whose search needs more
+    than max_steps instructions is dropped from the family and the job re-run."""
+    cases = list(cases)
+    for attempt in range(8):
+        d = ctx.scratch.sub("vmo_%s_%d" % (name, attempt))
+        with open(os.path.join(d, "cases.ndjson"), "w") as f:
+            for c in cases:
+                f.write(json.dumps(c, separators=(",", ":")) + "\n")
+        cfg = ("SPECIFICATION Spec\nCONSTANT CaseFile = \"cases.ndjson\"\nCONSTANT MaxSteps = %d\nCONSTANT Dev = {}\n"
+               "INVARIANTS %s EmitDone\nCHECK_DEADLOCK FALSE\n" % (max_steps, " ".join(invariants)))
+        out, st = vlib.run_tlc(d, "VM", cfg, workers=workers or vlib.NCPU, timeout=timeout, heap="8g")
+        if st["ok"]:
+            break
+        m = re.search(r"Error: Invariant (\w+) is violated", out)
+        mc = re.findall(r"/\\ ci = (\d+)", out)
+        if drop_expensive and m and m.group(1) == "StepBound" and mc:
+            idx = int(mc[-1])
+            dropped = cases.pop(idx - 1)
+            ctx.diagnostics.setdefault("random_cases_dropped_as_too_expensive", []).append(dropped.get("id"))
+            continue
         raise Undecided("model checking of spec/VM.tla failed:\n" + vlib.tlc_error_excerpt(out, 60))
+    else:
+        raise Undecided("too many expensive random cases")
     by_id = {}
     for doc in vlib.tlc_json_lines(out):
         r = json.loads(doc)
@@ -652,7 +666,7 @@ def vm_oracle(ctx, name, cases, max_steps=20000, workers=None, timeout=900,
                "(StepBound), never gets stuck (NoStuck), reports well-formed matches (MatchWF)%s" % (
                    max_steps, " equal to the reference semantics" if "RefinesSemantics" in invariants else
                    "; the model (checked to refine the reference semantics on the structured scopes) is the oracle here"))
-    return exps, st
+    return exps, st, cases
 
 
 FIELDS["C09"] = ["panic", "crash", "hang", "cpanic", "wf", "filediff"]
@@ -696,7 +710,7 @@ def c10(ctx):
                      "instruction budget derived from the model's step counts (hook H1)")
     quick = ctx.tier == "quick"
     cases = ctx.gen_cases("C10")
-    exps, st = vm_oracle(ctx, "terminate", cap_texts(cases), max_steps=20000)
+    exps, st, _ = vm_oracle(ctx, "terminate", cap_texts(cases), max_steps=20000)
     nontriv = sum(1 for e in exps for r in e["r"] if r["steps"] > 20)
     rep = ctx.replay("C10-budget", cases, FIELDS["C10"], exps=exps, extra=["-budget-mul", "20"], timeout=20)
     ctx.nontrivial = nontriv
@@ -1490,12 +1504,44 @@ def random_cases(seed, n, max_nodes=9, ntexts=14, maxlen=8, with_caps=True):
         """captures under unnamed loops with min>=1 are unrolled: keep them out of loop bodies with min>=1 that are also referenced... fine: only reject capture names duplicated"""
         return True
 
+    def star_height(e):
+        """nesting depth of unbounded loops (calls count through their subroutine body)"""
+        k = e.get("k")
+        if k == "loop":
+            h = star_height(e["body"])
+            return h + 1 if e["max"] == -1 else h
+        if k in ("seq", "sub"):
+            return max([star_height(x) for x in e["es"]] + [0])
+        if k == "or":
+            return max(star_height(e["l"]), star_height(e["r"]))
+        if k == "cap":
+            return star_height(e["body"])
+        if k == "ref":
+            return 1 if e["name"].startswith("s") else 0      # a call may recurse
+        return 0
+
+    def loops_in(e):
+        k = e.get("k")
+        if k == "loop":
+            return 1 + loops_in(e["body"])
+        if k in ("seq", "sub"):
+            return sum(loops_in(x) for x in e["es"])
+        if k == "or":
+            return loops_in(e["l"]) + loops_in(e["r"])
+        if k == "cap":
+            return loops_in(e["body"])
+        return 0
+
     cases = []
     tries = 0
-    while len(cases) < n and tries < n * 20:
+    while len(cases) < n and tries < n * 40:
         tries += 1
         g = G()
         body = [g.expr(0) for _ in range(rnd.randint(1, 3))]
+        # keep the cost of the backtracking search polynomial and small: no unbounded loop inside an
+        # unbounded loop, at most three loops
+        if max(star_height(x) for x in body) > 1 or sum(loops_in(x) for x in body) > 3:
+            continue
         js = json.dumps(body)
         # a back-reference or call must follow its definition in generation order: defs are only
         # offered after they were generated, so this holds; captures inside subroutine bodies are avoided
